@@ -158,7 +158,7 @@ pub fn candidate_names() -> Vec<String> {
         v.push(format!("_{}", k));
         v.push(k.to_uppercase());
     }
-    for base in ["a", "ab", "a1", "_", "_a", "__", "_1", "A", "aB", "a_b", "f", "i1", "d5", "f1e5", "x9_"] {
+    for base in ["a", "ab", "a1", "_", "_a", "__", "_1", "A", "aB", "a_b", "f", "i1", "d5", "f1e5", "x9_", "i18n", "i2c_read", "f1_score", "f64_bits", "d3_layout", "d20roll", "i1_0", "finf", "fNaN", "Year", "INT", "Int", "isNone", "DateTime", "upper", "lower", "to_uppercase", "date", "time", "is", "to", "not", "ceil", "abs"] {
         v.push(base.to_string());
     }
     for bad in ["", "1", "1a", "9_", " a", "a ", "a b", "a-b", "a.b", "a(b", "-", "- a"] {
